@@ -448,6 +448,7 @@ struct Sig {
     primitive_named_identifier: bool, // F40: Type::Identifier named int/bin/ref (only `<'int>` produces it)
     toplevel_type_binding: bool, // F41: a statement-level chain bound to a type pattern: `'d<'t> = ...`
     self_default_pattern: bool, // F42: Type::SelfDefault inside a pattern
+    hole_name_then_paren: bool, // F79c17: the F43 shape inside an interpolation hole
     name_then_paren: bool, // F43: a step ending in a bare tuple name followed by a step starting with `(`
     select_then_tuple: bool, // F60: bare `!` directly followed by an anonymous tuple term
     bodyless_fn_then_block: bool, // F61: a body-less function directly followed by a block (same chain or next step)
@@ -650,7 +651,7 @@ fn sig_chain(c: &Chain, in_hole: bool, sig: &mut Sig) {
         sig_term(t, in_hole, sig);
     }
 }
-fn sig_steps(chains: &[Chain], sig: &mut Sig) {
+fn sig_steps(chains: &[Chain], in_hole: bool, sig: &mut Sig) {
     for w in chains.windows(2) {
         fn term_ends_bare(t: &Term) -> bool {
             match t {
@@ -669,6 +670,9 @@ fn sig_steps(chains: &[Chain], sig: &mut Sig) {
         let ends_bare = w[0].terms.last().is_some_and(term_ends_bare);
         if ends_bare && chain_starts_with_paren(&w[1]) {
             sig.name_then_paren = true;
+            if in_hole {
+                sig.hole_name_then_paren = true;
+            }
         }
         if w[0].terms.last().is_some_and(|t| is_bodyless_function(last_through_blocks(t)))
             && w[1].match_pattern.is_none()
@@ -680,9 +684,9 @@ fn sig_steps(chains: &[Chain], sig: &mut Sig) {
 }
 fn sig_expression(e: &Expression, in_hole: bool, sig: &mut Sig) {
     for b in &e.branches {
-        sig_steps(&b.condition.chains, sig);
+        sig_steps(&b.condition.chains, in_hole, sig);
         if let Some(k) = &b.consequence {
-            sig_steps(&k.chains, sig);
+            sig_steps(&k.chains, in_hole, sig);
         }
     }
     if e.branches.len() > 1 {
@@ -788,7 +792,7 @@ fn signature(p: &Program) -> Sig {
     for s in &p.statements {
         match s {
             Statement::Expression(seq) => {
-                sig_steps(&seq.chains, &mut sig);
+                sig_steps(&seq.chains, false, &mut sig);
                 for c in &seq.chains {
                     if matches!(c.match_pattern, Some(Match::Type(_))) {
                         sig.toplevel_type_binding = true;
@@ -1036,6 +1040,9 @@ fn e2e(src: &str, with_out: bool) -> String {
     }
     if sig.name_then_paren {
         sigs.push("name-then-paren");
+    }
+    if sig.hole_name_then_paren {
+        sigs.push("hole-name-then-paren");
     }
     if !c_in.is_empty() {
         sigs.push("has-comment");
